@@ -10,10 +10,22 @@
    REDEFINES-x -> oneOf[...] and every member becomes a $ref placeholder; the alternatives list
    ends up holding every member in order.  The correspondence run compares the emitted schema
    itself (keys in order, kinds, anchors), not just the offsets.  build_raises flags the one
-   shape on which the real code raises KeyError (a REDEFINES inside an OCCURS group). *)
+   shape on which the real code raises KeyError (a REDEFINES inside an OCCURS group).
+
+   The RULES of the Location tree are not written out here: harness/t1_layout.py reads them in the current
+   schema_instance.py on every run and states them in Gen/LayoutParams.v (vocabulary: Model/LayoutRule.v) --
+   the order of the cases of walk's match statement, the start handed to every recursive walk, the (start, end)
+   handed to every Location constructor and what Location.__init__ makes of them, where an item count comes from,
+   how the running offset of an object advances, the aggregate over the alternatives of a oneOf, the two $anchor
+   registrations, from_instance's start, the comparison by which NDNav.index refuses, the start of its re-walk,
+   .referent in NDNav.name, the slice of NDNav.raw.  walk, nav_of, nav_name, nav_index and nav_raw below EVALUATE
+   those statements; what they amount to under the rules as they are now is proved (by computation from the
+   generated file) at the head of Proofs/LayoutP.v, and every later proof goes through those equations.  So an edit
+   of the source that changes a rule changes Gen/LayoutParams.v and the proofs stop compiling, while this file and
+   the judges still build and the model follows the edited source. *)
 From Coq Require Import List Arith NArith Bool.
 Import ListNotations.
-Require Import SR.Base.Res SR.Spec.Layout.
+Require Import SR.Base.Res SR.Spec.Layout SR.Model.LayoutRule SR.Gen.LayoutParams.
 
 Inductive key := KName (i : id) | KRedef (i : id).
 Definition key_eqb (a b : key) : bool :=
@@ -137,8 +149,24 @@ Combined Scheme loc_lprops_lalts_ind from loc_ind3, lprops_ind3, lalts_ind3.
 
 Definition lstart (l : loc) : nat :=
   match l with LAtom s _ | LArr s _ _ _ _ _ | LObj s _ _ | LOne s _ _ | LRef s _ => s end.
+
+(* ---- Location.__init__(schema, start, end), as Gen/LayoutParams.v states it:
+        self.start = <init_start>
+        if <init_test>: self.end = <init_end_then>; self.size = <init_size_then>
+        else:           self.end = <init_end_else>; self.size = <init_size_else>
+   A location of the model keeps start and size; lend below is start + size (Proofs/LayoutP.v, loc_end_consistent,
+   shows that this is the end the constructor stores whenever start <= end). *)
+Definition loc_start (s e : nat) : nat := eval (env_init s e) init_start.
+Definition loc_size (s e : nat) : nat :=
+  if eval (env_init s e) init_test =? 0 then eval (env_init s e) init_size_else else eval (env_init s e) init_size_then.
+Definition loc_end (s e : nat) : nat :=
+  if eval (env_init s e) init_test =? 0 then eval (env_init s e) init_end_else else eval (env_init s e) init_end_then.
+
+(* RefToLocation(schema, self.anchors, <ref_start>, <ref_end>): the size Location.__init__ derives from that *)
+Definition ref_size (st : nat) : nat := loc_size (eval (env_start st) ref_start) (eval (env_start st) ref_end).
+
 Definition lsize (l : loc) : nat :=
-  match l with LAtom _ z | LArr _ z _ _ _ _ | LObj _ z _ | LOne _ z _ => z | LRef _ _ => 0 end.
+  match l with LAtom _ z | LArr _ z _ _ _ _ | LObj _ z _ | LOne _ z _ => z | LRef s _ => ref_size s end.
 Definition lend (l : loc) : nat := lstart l + lsize l.
 
 (* LocationMaker.anchors: a dict; newest registration first, lookup takes the first match *)
@@ -151,59 +179,176 @@ Fixpoint lookup (k : key) (an : anchors) : option loc :=
   | (k', l) :: r => if key_eqb k k' then Some l else lookup k r
   end.
 
+(* after the match statement: if anchor_name := loc.schema._attributes.get('$anchor'): self.anchors[anchor_name] = loc *)
+Definition post_reg (a : option key) (l : loc) (an : anchors) : anchors :=
+  if walk_registers_anchor then reg a l an else an.
+(* inside the ObjectSchema loop: if anchor_name := property_schema._attributes.get('$anchor'): self.anchors[...] = prop_loc *)
+Definition loop_reg (a : option key) (l : loc) (an : anchors) : anchors :=
+  if obj_loop_registers_anchor then reg a l an else an.
+
+(* aggregates over the sizes of the alternatives (of a non-empty list; the empty one is LayoutRule.agg_empty) *)
 Fixpoint max_size (ls : lalts) : nat :=
   match ls with LANil => 0 | LACons l r => Nat.max (lsize l) (max_size r) end.
+Fixpoint sum_size (ls : lalts) : nat :=
+  match ls with LANil => 0 | LACons l r => lsize l + sum_size r end.
+Fixpoint min_size (ls : lalts) : nat :=
+  match ls with LANil => 0 | LACons l LANil => lsize l | LACons l r => Nat.min (lsize l) (min_size r) end.
+Definition first_size (ls : lalts) : nat := match ls with LANil => 0 | LACons l _ => lsize l end.
+Fixpoint last_size (ls : lalts) : nat :=
+  match ls with LANil => 0 | LACons l LANil => lsize l | LACons _ r => last_size r end.
+Definition agg_alts (g : agg) (ls : lalts) : nat :=
+  match g with
+  | AggSum => sum_size ls | AggMax => max_size ls | AggMin => min_size ls
+  | AggFirst => first_size ls | AggLast => last_size ls
+  end.
+
+(* the same over the property locations of an object (ObjectLocation.__init__ : self.size = sum(p.size for p in ...)) *)
+Fixpoint sum_props (ps : lprops) : nat :=
+  match ps with LPNil => 0 | LPCons _ l r => lsize l + sum_props r end.
+Fixpoint max_props (ps : lprops) : nat :=
+  match ps with LPNil => 0 | LPCons _ l r => Nat.max (lsize l) (max_props r) end.
+Fixpoint min_props (ps : lprops) : nat :=
+  match ps with LPNil => 0 | LPCons _ l LPNil => lsize l | LPCons _ l r => Nat.min (lsize l) (min_props r) end.
+Definition first_props (ps : lprops) : nat := match ps with LPNil => 0 | LPCons _ l _ => lsize l end.
+Fixpoint last_props (ps : lprops) : nat :=
+  match ps with LPNil => 0 | LPCons _ l LPNil => lsize l | LPCons _ _ r => last_props r end.
+Definition agg_props (g : agg) (ps : lprops) : nat :=
+  match g with
+  | AggSum => sum_props ps | AggMax => max_props ps | AggMin => min_props ps
+  | AggFirst => first_props ps | AggLast => last_props ps
+  end.
+(* the size of an ObjectLocation built with (start, end) = (s, e) over the property locations ps *)
+Definition obj_size (s e : nat) (ps : lprops) : nat :=
+  match obj_size_override with Some g => agg_props g ps | None => loc_size s e end.
+
+(* match schema: the first case, in the order of the source, of which the object is an instance *)
+Definition dispatch (rt : sclass) : option sclass := dispatch_in walk_cases rt.
+
+(* ArrayLocation(schema, <item_size>, <item_count>, sublocation, <start>, <end>) *)
+Definition arr_loc (es ee eisz ecnt : lexpr) (st : nat) (sub : loc) (cnt : nat) (its : js) : loc :=
+  let v := env_arr st (lsize sub) cnt in
+  LArr (loc_start (eval v es) (eval v ee)) (loc_size (eval v es) (eval v ee)) (eval v eisz) (eval v ecnt) sub its.
 
 Section Walk.
   Variable B : Type.
   Variable dcount : list B -> nat.      (* int(unpacker.value(counter schema, bytes)) *)
   Variable r : list B.                  (* the record instance *)
 
-  Fixpoint walk (s : js) (st : nat) (an : anchors) : res (loc * anchors) :=
-    match s with
-    | JAtom a sz => let l := LAtom st sz in Ok (l, reg a l an)
-    | JArr a n its =>
-        match walk its st an with
-        | Err e => Err e
-        | Ok (sub, an1) =>
-            let l := LArr st (lsize sub * n) (lsize sub) n sub its in Ok (l, reg a l an1)
-        end
-    | JOdo a c its =>
+  (* the item count of an ArraySchema object whose maxItems attribute is n *)
+  Definition arr_count (n : nat) : res nat :=
+    match arr_count_src with
+    | CsAttrMaxItems => Ok n
+    | CsAnchorValue => Err AttributeError          (* an ArraySchema has no max_ref *)
+    end.
+  (* the item count of a DependsOnArraySchema object whose maxItemsDependsOn names c, in the case written for that class *)
+  Definition odo_count (c : id) (an : anchors) : res nat :=
+    match odo_count_src with
+    | CsAnchorValue =>
         match lookup (KName c) an with
         | None => Err KeyError
-        | Some (LAtom cst csz) =>
-            let n := dcount (slice r cst (cst + csz)) in
-            match walk its st an with
-            | Err e => Err e
-            | Ok (sub, an1) =>
-                let l := LArr st (lsize sub * n) (lsize sub) n sub its in Ok (l, reg a l an1)
-            end
+        | Some (LAtom cst csz) => Ok (dcount (slice r cst (cst + csz)))
         | Some _ => Err TypeError
         end
+    | CsAttrMaxItems => Ok 0                        (* neither maxItems nor minItems: the default of .get *)
+    end.
+  (* ... and when the ArraySchema case comes first in the match statement *)
+  Definition odo_as_arr_count : res nat :=
+    match arr_count_src with
+    | CsAttrMaxItems => if arr_asserts_bound then Err AssertionError else Ok 0
+    | CsAnchorValue => Err AttributeError
+    end.
+
+  Fixpoint walk (s : js) (st : nat) (an : anchors) : res (loc * anchors) :=
+    match s with
+    | JAtom a sz =>
+        match dispatch CAtomic with
+        | Some CAtomic =>
+            let v := env_atom st sz in
+            let l := LAtom (loc_start (eval v atom_start) (eval v atom_end)) (loc_size (eval v atom_start) (eval v atom_end)) in
+            Ok (l, post_reg a l an)
+        | _ => Err DesignError
+        end
+    | JArr a n its =>
+        match dispatch CArray with
+        | Some CArray =>
+            match arr_count n with
+            | Err e => Err e
+            | Ok cnt =>
+                match walk its (eval (env_arr st 0 cnt) arr_item_start) an with
+                | Err e => Err e
+                | Ok (sub, an1) =>
+                    let l := arr_loc arr_start arr_end arr_item_size arr_item_count st sub cnt its in Ok (l, post_reg a l an1)
+                end
+            end
+        | _ => Err DesignError
+        end
+    | JOdo a c its =>
+        match dispatch CDependsOn with
+        | Some CDependsOn =>
+            match odo_count c an with
+            | Err e => Err e
+            | Ok cnt =>
+                match walk its (eval (env_arr st 0 cnt) odo_item_start) an with
+                | Err e => Err e
+                | Ok (sub, an1) =>
+                    let l := arr_loc odo_start odo_end odo_item_size odo_item_count st sub cnt its in Ok (l, post_reg a l an1)
+                end
+            end
+        | Some CArray =>
+            match odo_as_arr_count with
+            | Err e => Err e
+            | Ok cnt =>
+                match walk its (eval (env_arr st 0 cnt) arr_item_start) an with
+                | Err e => Err e
+                | Ok (sub, an1) =>
+                    let l := arr_loc arr_start arr_end arr_item_size arr_item_count st sub cnt its in Ok (l, post_reg a l an1)
+                end
+            end
+        | _ => Err DesignError
+        end
     | JObj a ps =>
-        match walk_props ps st an with
-        | Err e => Err e
-        | Ok (pls, off, an1) => let l := LObj st (off - st) pls in Ok (l, reg a l an1)
+        match dispatch CObject with
+        | Some CObject =>
+            match walk_props ps (eval (env_start st) obj_first_offset) an with
+            | Err e => Err e
+            | Ok (pls, off, an1) =>
+                let v := env_obj st off in
+                let l := LObj (loc_start (eval v obj_start) (eval v obj_end)) (obj_size (eval v obj_start) (eval v obj_end) pls) pls in
+                Ok (l, post_reg a l an1)
+            end
+        | _ => Err DesignError
         end
     | JOne a alts =>
-        match alts with
-        | ANil => Err ValueError                     (* max() of an empty sequence *)
-        | _ =>
-            match walk_alts alts st an with
-            | Err e => Err e
-            | Ok (als, an1) => let l := LOne st (max_size als) als in Ok (l, reg a l an1)
+        match dispatch COneOf with
+        | Some COneOf =>
+            match alts, agg_empty one_agg with
+            | ANil, Err e => Err e                   (* max() of an empty sequence *)
+            | _, _ =>
+                match walk_alts alts (eval (env_start st) one_alt_start) an with
+                | Err e => Err e
+                | Ok (als, an1) =>
+                    let v := env_one st (agg_alts one_agg als) in
+                    let l := LOne (loc_start (eval v one_start) (eval v one_end)) (loc_size (eval v one_start) (eval v one_end)) als in
+                    Ok (l, post_reg a l an1)
+                end
             end
+        | _ => Err DesignError
         end
-    | JRef k => Ok (LRef st k, an)
+    | JRef k =>
+        match dispatch CRefTo with
+        | Some CRefTo =>
+            let v := env_start st in Ok (LRef (loc_start (eval v ref_start) (eval v ref_end)) k, an)
+        | _ => Err DesignError
+        end
     end
   with walk_props (ps : props) (off : nat) (an : anchors) : res (lprops * nat * anchors) :=
     match ps with
     | PNil => Ok (LPNil, off, an)
     | PCons k p rest =>
-        match walk p off an with
+        match walk p (eval (env_off off) obj_child_start) an with
         | Err e => Err e
         | Ok (pl, an1) =>
-            match walk_props rest (off + lsize pl) (reg (js_anchor p) pl an1) with
+            match walk_props rest (eval (env_step off (lsize pl)) obj_step) (loop_reg (js_anchor p) pl an1) with
             | Err e => Err e
             | Ok (rl, off', an2) => Ok (LPCons k pl rl, off', an2)
             end
@@ -226,9 +371,13 @@ Section Walk.
   (* ---- NDNav ---- *)
   Record nav := mknav { n_loc : loc; n_an : anchors }.
 
-  (* unpacker.nav(schema, instance) = LocationMaker(unpacker, schema).from_instance(instance) *)
+  (* LocationMaker(unpacker, schema).from_instance(instance, start): self.walk(self.schema, <from_instance_start>) *)
+  Definition from_instance (s : js) (start : nat) : res (loc * anchors) :=
+    walk s (eval (env_start start) from_instance_start) [].
+
+  (* unpacker.nav(schema, instance) = LocationMaker(unpacker, schema).from_instance(instance)   [start: the default] *)
   Definition nav_of (s : js) : res nav :=
-    match walk s 0 [] with Ok (l, an) => Ok (mknav l an) | Err e => Err e end.
+    match from_instance s from_instance_default with Ok (l, an) => Ok (mknav l an) | Err e => Err e end.
 
   Fixpoint find_prop (k : key) (ps : lprops) : option loc :=
     match ps with
@@ -236,23 +385,29 @@ Section Walk.
     | LPCons k' l rest => if key_eqb k k' then Some l else find_prop k rest
     end.
 
+  (* NDNav.name: self.location.properties[name].referent  (Location.referent is self; RefToLocation.referent is
+     self.anchors[name after '#']) *)
   Definition nav_name (v : nav) (k : key) : res nav :=
     match n_loc v with
     | LObj _ _ ps =>
         match find_prop k ps with
         | None => Err KeyError
-        | Some (LRef _ t) =>
-            match lookup t (n_an v) with Some l => Ok (mknav l (n_an v)) | None => Err KeyError end
+        | Some (LRef st t) =>
+            if name_via_referent
+            then match lookup t (n_an v) with Some l => Ok (mknav l (n_an v)) | None => Err KeyError end
+            else Ok (mknav (LRef st t) (n_an v))
         | Some l => Ok (mknav l (n_an v))
         end
     | _ => Err TypeError
     end.
 
+  (* NDNav.index: if index <index_refuse> base_location.item_count: raise IndexError  (None: no such statement);
+     LocationMaker(unpacker, subschema).from_instance(self.instance, start=<index_start>)  -- a fresh maker: no anchors *)
   Definition nav_index (v : nav) (i : nat) : res nav :=
     match n_loc v with
     | LArr st _ isz cnt _ sch =>
-        if cnt <=? i then Err IndexError
-        else match walk sch (st + isz * i) [] with
+        if refused index_refuse i cnt then Err IndexError
+        else match from_instance sch (eval (env_index st isz cnt i) index_start) with
              | Ok (l, an) => Ok (mknav l an)
              | Err e => Err e
              end
@@ -268,12 +423,16 @@ Section Walk.
     | s :: p' => match nav_step v s with Ok v' => nav_path v' p' | Err e => Err e end
     end.
 
-  Definition nav_raw (v : nav) : list B := slice r (lstart (n_loc v)) (lend (n_loc v)).
+  (* NDNav.raw: self.instance[<raw_lo> : <raw_hi>] *)
+  Definition nav_raw (v : nav) : list B :=
+    let ev := env_raw (lstart (n_loc v)) (lend (n_loc v)) in slice r (eval ev raw_lo) (eval ev raw_hi).
 End Walk.
 
+Arguments odo_count {B}.
 Arguments walk {B}.
 Arguments walk_props {B}.
 Arguments walk_alts {B}.
+Arguments from_instance {B}.
 Arguments nav_of {B}.
 Arguments nav_index {B}.
 Arguments nav_step {B}.
